@@ -88,8 +88,23 @@ def drive(binary, seed, n, out, only=None):
     return json.loads(so.strip().splitlines()[-1])
 
 
-def hang_prop(what):
-    return "C03"
+def corrupt(prop):
+    """One recorded field changed / one hook event removed; the validator must notice (binding self-test)."""
+    def f(lines):
+        for i, l in enumerate(lines):
+            d = json.loads(l)
+            if prop == "C02" and d["e"] == "Closest" and d.get("nodeOk") and d.get("dataOk") and len(d["closest"]) >= 1:
+                d["closest"] = d["closest"][1:]        # the recorded result set loses a member
+                return "dropped one member of a logged result set", lines[:i] + [json.dumps(d)] + lines[i + 1:]
+            if prop == "C03" and d["e"] == "RunEval" and not d["offer"] and d["out"] > 0:
+                d["offer"] = True                        # a stalled offer although a query is in flight
+                return "flipped a logged stall decision to 'offered' while a query was in flight", lines[:i] + [json.dumps(d)] + lines[i + 1:]
+            if prop == "C04" and d["e"] == "StartQuery" and d["out"] >= 1:
+                # the same query start logged twice: the address is queried again and the fan-out grows by one
+                d2 = dict(d, out=d["out"] + 1)
+                return "duplicated one StartQuery hook event", lines[:i + 1] + [json.dumps(d2)] + lines[i + 1:]
+        return None
+    return f
 
 
 def run(prop, tier, seed, replay=None):
@@ -121,6 +136,12 @@ def run(prop, tier, seed, replay=None):
     with ThreadPoolExecutor(max_workers=min(len(jobs), max(1, vlib.NCPU // 2))) as ex:
         results = list(ex.map(one, jobs))
     deviations = 0
+    if not replay and results:
+        st_ = vlib.binding_selftest("Trace_Traversal", ("Trace_Traversal.cfg", "Trace_Traversal_relaxed.cfg"), results[0][1], corrupt(prop), INV_PROPS)
+        cov["binding_selftest"] = st_
+        log("  binding self-test: %s -> %s" % (st_["what"], "rejected, as required" if st_["detected"] else "NOT NOTICED"))
+        if not st_["detected"]:
+            v.inconclusive.append("binding self-test failed: the validator accepted a corrupted trace (%s)" % st_["what"])
     for s, out, st, tv in results:
         events += st["events"]
         lookups += st["lookups"] if not replay else 1
